@@ -111,7 +111,10 @@ func (w *world) snapshot() string {
 func (w *world) exec(op string) (res string) {
 	defer func() {
 		if r := recover(); r != nil {
-			res = "crash"
+			res = "crash:" + strings.ReplaceAll(fmt.Sprint(r), "\n", " ")
+			if strings.HasPrefix(res, "crash:invalid host") {
+				res = "crash:invalid-host"
+			}
 			if os.Getenv("VERIF_DEBUG") != "" {
 				fmt.Fprintf(os.Stderr, "crash on %q: %v\n", op, r)
 			}
